@@ -71,7 +71,14 @@ func C18(r *core.Report) {
 	// R1
 	okCap := false
 	if capExpr != nil {
-		if c, ok := core.Unparen(capExpr).(*ast.CallExpr); ok && core.BuiltinName(info, c) == "len" && len(c.Args) == 1 && core.ObjOf(info, c.Args[0]) == launched {
+		ce := core.Unparen(capExpr)
+		// a local that holds len(jobs) (assigned once) counts as len(jobs)
+		if o := core.ObjOf(info, ce); o != nil {
+			if d := singleDef(f, o); d != nil {
+				ce = core.Unparen(d)
+			}
+		}
+		if c, ok := ce.(*ast.CallExpr); ok && core.BuiltinName(info, c) == "len" && len(c.Args) == 1 && core.ObjOf(info, c.Args[0]) == launched {
 			okCap = true
 		}
 	}
@@ -111,8 +118,16 @@ func C18(r *core.Report) {
 				// go statement?
 				isGo := false
 				ast.Inspect(f.Body, func(m ast.Node) bool {
-					if gs, ok := m.(*ast.GoStmt); ok && core.Unparen(gs.Call.Fun) == ast.Expr(fn.Lit) {
-						isGo = true
+					if gs, ok := m.(*ast.GoStmt); ok {
+						if core.Unparen(gs.Call.Fun) == ast.Expr(fn.Lit) {
+							isGo = true
+						}
+						// go name() where name is a local bound once to this literal
+						if o := core.ObjOf(info, gs.Call.Fun); o != nil {
+							if d := singleDef(f, o); d != nil && core.Unparen(d) == ast.Expr(fn.Lit) {
+								isGo = true
+							}
+						}
 					}
 					return true
 				})
@@ -248,6 +263,8 @@ func C18(r *core.Report) {
 	}
 	c18Classification(r)
 	c18JobIndependence(r)
+	c18AllJobsStarted(r)
+	r.Floor("C18.R7", 2)
 	r.Floor("C18.R6", 1)
 	r.Floor("C18.R2", 2)
 	r.Floor("C18.R3", 1)
@@ -437,5 +454,100 @@ func c18JobIndependence(r *core.Report) {
 	}
 	if n == 0 {
 		r.Undecided(rule, f.Key+"#jobs", posP(r, f.Pos()), "no per-epoch job literal found")
+	}
+}
+
+// c18AllJobsStarted (C18.R7): FirstSuccess gives its guarantee (a hit whenever one exists, otherwise every error) for
+// the jobs it is handed. The JobGroup runners must therefore hand it the whole group: the spread argument is the group
+// itself (or an unsliced copy of it). A runner that passes sub-slices must do so from a loop whose windows provably
+// cover the group (low bound running from 0 while it is below len, high bound capped at len); anything else can leave
+// trailing jobs unstarted.
+func c18AllJobsStarted(r *core.Report) {
+	const rule = "C18.R7"
+	p := r.Prog
+	n := 0
+	for _, key := range []string{"main.(*JobGroup).Run", "main.(*JobGroup).RunWithConcurrency"} {
+		f := r.Anchor(rule, key)
+		if f == nil {
+			continue
+		}
+		info := f.Pkg.TypesInfo
+		recv := info.Defs[f.Decl.Recv.List[0].Names[0]]
+		isWhole := func(e ast.Expr) bool {
+			e = core.Unparen(e)
+			if st, ok := e.(*ast.StarExpr); ok && core.ObjOf(info, st.X) == recv {
+				return true
+			}
+			if o := core.ObjOf(info, e); o != nil {
+				if d := singleDef(f, o); d != nil {
+					if st, ok := core.Unparen(d).(*ast.StarExpr); ok && core.ObjOf(info, st.X) == recv {
+						return true
+					}
+				}
+			}
+			return false
+		}
+		calls := 0
+		for _, w := range f.AllWithLits() {
+			for _, c := range core.CallsIn(w.Body, false) {
+				if core.CalleeName(info, c) != "main.FirstSuccess" || len(c.Args) < 3 || !c.Ellipsis.IsValid() {
+					continue
+				}
+				calls++
+				n++
+				k := fmt.Sprintf("%s#jobs-handed-to-FirstSuccess@%d", f.Key, calls)
+				arg := c.Args[len(c.Args)-1]
+				if isWhole(arg) {
+					r.OK(rule, k, pos(r, c), "the whole job group is handed to FirstSuccess")
+					continue
+				}
+				se, isSlice := core.Unparen(arg).(*ast.SliceExpr)
+				if !isSlice || !isWhole(se.X) {
+					r.Violation(rule, k, pos(r, c), "FirstSuccess is not handed the job group ("+core.ExprStr(arg)+"): jobs that are not passed never run, so an existing hit can be missed and the error list is incomplete")
+					continue
+				}
+				// windowed: for lo := 0; lo < len(jobs); lo += step { hi := min(lo+step, len(jobs)); jobs[lo:hi] }
+				okWin, why := false, "the windows are not produced by a loop of the form `for lo := 0; lo < len(jobs); lo += step` with the upper bound capped at len(jobs)"
+				var loop *ast.ForStmt
+				ast.Inspect(w.Body, func(m ast.Node) bool {
+					if fs, ok := m.(*ast.ForStmt); ok && fs.Pos() <= c.Pos() && c.End() <= fs.End() {
+						loop = fs
+					}
+					return true
+				})
+				if loop != nil && loop.Cond != nil && se.Low != nil {
+					lo := core.ObjOf(info, se.Low)
+					if be, ok := core.Unparen(loop.Cond).(*ast.BinaryExpr); ok && be.Op == token.LSS && core.ObjOf(info, be.X) == lo && lo != nil {
+						if lc, ok := core.Unparen(be.Y).(*ast.CallExpr); ok && core.BuiltinName(info, lc) == "len" && isWhole(lc.Args[0]) {
+							// the high bound: min(lo+step, len(jobs)) or a variable clamped to len(jobs)
+							hs := core.ExprStr(se.High)
+							if se.High == nil || strings.HasPrefix(hs, "min(") {
+								okWin = true
+							} else if ho := core.ObjOf(info, se.High); ho != nil {
+								clamped := false
+								ast.Inspect(loop.Body, func(x ast.Node) bool {
+									if is, ok := x.(*ast.IfStmt); ok && core.Mentions(info, is.Cond, ho) && strings.Contains(core.ExprStr(is.Cond), "len(") {
+										clamped = true
+									}
+									return true
+								})
+								okWin = clamped
+							}
+						}
+					} else {
+						why = "the window loop runs while " + core.ExprStr(loop.Cond) + ", which stops before a trailing partial window"
+					}
+				}
+				r.Check(okWin, rule, k, pos(r, c), "the windows handed to FirstSuccess cover the whole job group",
+					"only part of the job group reaches FirstSuccess: "+why+" - the jobs of the last window never run, an existing hit is missed and the error list is incomplete")
+			}
+		}
+		if calls == 0 {
+			r.Violation(rule, f.Key+"#calls-FirstSuccess", posP(r, f.Pos()), "the runner does not call FirstSuccess")
+		}
+	}
+	_ = p
+	if n == 0 {
+		r.Undecided(rule, "main.JobGroup#runners", "", "no JobGroup runner found")
 	}
 }
